@@ -138,6 +138,8 @@ func (e *Engine) newPath(prefix []int) *Path {
 		redirect:     map[string]*ssa.Function{},
 		redirectVals: map[string]value{},
 		concLimit:    64,
+		symIdx:       map[string]int{},
+		symMemo:      map[int][]int{},
 		maxPreempt:   0,
 	}
 	if e.pin != nil {
